@@ -444,4 +444,220 @@ theorem desc_weight_roundtrip (p : PDesc) (hs : p.d.sym ≠ .none) (hst : stereo
     simp [floatOf, hpf]
   simp only [bne_self_eq_false, Bool.or_self, Bool.false_eq_true, if_false, symOfChar?_symChar p.d.sym hs, hid, hwt, hst]
 
+/-! ## a transition list between `|` -/
+
+theorem splitWs_go_word_tail (u cur tail : Str) (acc : List Str) (h : ∀ c ∈ u, isWs c = false) :
+    splitWs.go (u ++ tail) cur acc = splitWs.go tail (u.reverse ++ cur) acc := by
+  induction u generalizing cur with
+  | nil => rfl
+  | cons a l ih =>
+    have ha := h a (by simp)
+    simp only [List.cons_append, splitWs.go, ha, Bool.false_eq_true, if_false]
+    rw [ih (a :: cur) (fun c hc => h c (by simp [hc]))]
+    simp only [List.reverse_cons, List.append_assoc, List.singleton_append]
+
+/-- `go` over words separated by single blanks -/
+theorem splitWs_go_words (words : List Str) (hw : ∀ w ∈ words, w ≠ [] ∧ ∀ c ∈ w, isWs c = false) (rest : Str) (acc : List Str) :
+    splitWs.go ((words.map (· ++ [' '])).flatten ++ rest) [] acc = splitWs.go rest [] (words.reverse ++ acc) := by
+  induction words generalizing acc with
+  | nil => rfl
+  | cons w ws ih =>
+    obtain ⟨hne, hnw⟩ := hw w (by simp)
+    simp only [List.map_cons, List.flatten_cons, List.append_assoc, List.reverse_cons]
+    rw [splitWs_go_word_tail w [] _ acc hnw]
+    have hsp : isWs ' ' = true := by decide
+    have hcur : (w.reverse).isEmpty = false := by simpa using hne
+    simp only [List.singleton_append, splitWs.go, hsp, if_true, hcur, Bool.false_eq_true, if_false, List.append_nil, List.reverse_reverse]
+    rw [ih (fun x hx => hw x (by simp [hx]))]
+
+theorem splitWs_words (words : List Str) (last : Str) (hw : ∀ w ∈ words ++ [last], w ≠ [] ∧ ∀ c ∈ w, isWs c = false) :
+    splitWs ((words.map (· ++ [' '])).flatten ++ last) = words ++ [last] := by
+  unfold splitWs
+  rw [splitWs_go_words words (fun w h => hw w (by simp [h])) last []]
+  obtain ⟨hne, hnw⟩ := hw last (by simp)
+  have := splitWs_go_word_tail last [] [] (words.reverse ++ []) hnw
+  rw [List.append_nil] at this
+  rw [this]
+  have hcur : (last.reverse).isEmpty = false := by simpa using hne
+  simp only [splitWs.go, hcur, Bool.false_eq_true, if_false, List.append_nil, List.reverse_cons, List.reverse_reverse]
+
+/-- **parsing `[sym id | W |]`** for any text `W` without `|`: the weights are what `W.split()` reads -/
+theorem parseDesc_barred (sym : Sym) (hs : sym ≠ .none) (id : Option Nat) (num : Nat) (pre : Str) (atom : Option Nat)
+    (hst : stereoRejected pre = false) (W : Str) (hWpipe : '|' ∉ W) :
+    parseDesc (('[' :: symChar sym :: idStr id) ++ ('|' :: W) ++ ['|', ']']) num pre atom =
+      (match (splitWs W).mapM floatOf with
+       | .error e => .error e
+       | .ok [w] => .ok { d := { sym := sym, id := id, order := orderOfPrefix pre, weight := w, trans := none, atom := atom.getD 0 },
+                          pre := pre, num := num, noAtom := atom.isNone }
+       | .ok l => .ok { d := { sym := sym, id := id, order := orderOfPrefix pre, weight := sumQ l, trans := some l, atom := atom.getD 0 },
+                        pre := pre, num := num, noAtom := atom.isNone }) := by
+  have hd := idStr_digits id
+  -- names for the pieces
+  generalize hA : ('[' :: symChar sym :: idStr id) = A
+  have hApipe : '|' ∉ A := by
+    rw [← hA]
+    have h1 : '|' ∉ idStr id := not_mem_of_digits hd '|' (by decide)
+    have h2 : symChar sym ≠ '|' := by cases h : sym <;> simp [symChar, h] at hs ⊢
+    simp [h1, Ne.symm h2]
+  have hraw_eq : A ++ '|' :: W ++ ['|', ']'] = '[' :: symChar sym :: (idStr id ++ '|' :: (W ++ ['|', ']'])) := by
+    rw [← hA]; simp
+  have hne : (A ++ '|' :: W ++ ['|', ']'] == "[]".toList) = false := by
+    rw [hraw_eq]
+    cases h : sym <;> simp [symChar, h] at hs ⊢
+  unfold parseDesc
+  simp only [hne, Bool.false_eq_true, if_false]
+  have hraw : (if pre.isEmpty then slice (A ++ '|' :: W ++ ['|', ']']) (some (find (A ++ '|' :: W ++ ['|', ']']) ['['])) none
+      else A ++ '|' :: W ++ ['|', ']']) = A ++ '|' :: W ++ ['|', ']'] := by
+    split
+    · rw [hraw_eq, find_self_head]; exact slice_all _
+    · rfl
+  simp only [hraw]
+  have hi0 : index (A ++ '|' :: W ++ ['|', ']']) 0 = some '[' := by rw [hraw_eq]; simp [index]
+  have hi1 : index (A ++ '|' :: W ++ ['|', ']']) 1 = some (symChar sym) := by rw [hraw_eq]; simp [index]
+  have hil : index (A ++ '|' :: W ++ ['|', ']']) (-1) = some ']' := by
+    have : A ++ '|' :: W ++ ['|', ']'] = (A ++ '|' :: W ++ ['|']) ++ [']'] := by simp
+    rw [this]
+    unfold index
+    simp only [List.length_append, List.length_cons, List.length_nil]
+    have h1 : ((-1 : Int) < 0) := by omega
+    simp only [h1, if_true]
+    have h2 : ¬ ((-1 : Int) + ((A.length + (W.length + 1) + (0 + 1) + (0 + 1) : Nat) : Int) < 0) := by push_cast; omega
+    simp only [h2, if_false]
+    have h3 : ((-1 : Int) + ((A.length + (W.length + 1) + (0 + 1) + (0 + 1) : Nat) : Int)).toNat = (A ++ '|' :: W ++ ['|']).length := by
+      simp only [List.length_append, List.length_cons, List.length_nil]; push_cast; omega
+    rw [h3]
+    simp
+  rw [hi0, hil, hi1]
+  -- first and last `|`
+  have hfind : find (A ++ '|' :: W ++ ['|', ']']) ['|'] 0 = A.length := by
+    have : A ++ '|' :: W ++ ['|', ']'] = A ++ '|' :: (W ++ ['|', ']']) := by simp
+    rw [this]; exact find_first '|' A _ hApipe
+  have hrfind : rfind (A ++ '|' :: W ++ ['|', ']']) ['|'] = (A ++ '|' :: W).length := by
+    have : A ++ '|' :: W ++ ['|', ']'] = (A ++ '|' :: W) ++ '|' :: [']'] := by simp
+    rw [this]; exact rfind_last '|' _ [']'] (by decide)
+  have hcont : (A ++ '|' :: W ++ ['|', ']']).contains '|' = true := by simp
+  -- the id
+  have hid : parseId (A ++ '|' :: W ++ ['|', ']']) = .ok id := by
+    unfold parseId
+    simp only [hcont, if_true, hfind]
+    have hsl : slice (A ++ '|' :: W ++ ['|', ']']) (some 2) (some (A.length : Int)) = idStr id := by
+      have hAlen : A.length = 2 + (idStr id).length := by rw [← hA]; simp; omega
+      have : A ++ '|' :: W ++ ['|', ']'] = ['[', symChar sym] ++ idStr id ++ ('|' :: W ++ ['|', ']']) := by rw [← hA]; simp
+      rw [this, hAlen]
+      exact slice_mid ['[', symChar sym] (idStr id) _
+    rw [hsl]
+    have h2 : (idStr id).contains '[' = false := by rw [List.contains_eq_mem]; simpa using not_mem_of_digits hd '[' (by decide)
+    have h3 : (idStr id).contains ']' = false := by rw [List.contains_eq_mem]; simpa using not_mem_of_digits hd ']' (by decide)
+    simp only [h2, h3, Bool.or_self, Bool.false_eq_true, if_false]
+    cases hidc : id with
+    | none => simp [idStr]
+    | some n =>
+      have hne' : idStr (some n) ≠ [] := Nat.toDigits_ne_nil
+      have hie : (idStr (some n)).isEmpty = false := by simpa using hne'
+      simp only [hie, Bool.false_eq_true, if_false]
+      simp only [idStr, parseInt_toDigits]
+      simp
+  -- the weights
+  have hwt : parseWeights (A ++ '|' :: W ++ ['|', ']']) =
+      (match (splitWs W).mapM floatOf with
+       | .error e => .error e
+       | .ok [w] => .ok (w, none)
+       | .ok l => .ok (sumQ l, some l)) := by
+    unfold parseWeights
+    simp only [hcont, if_true]
+    have hcnt : count (A ++ '|' :: W ++ ['|', ']']) '|' = 2 := by
+      have : A ++ '|' :: W ++ ['|', ']'] = A ++ (['|'] ++ (W ++ (['|'] ++ [']']))) := by simp
+      rw [this, count_append, count_append, count_append, count_append, count_zero A '|' hApipe, count_zero W '|' hWpipe]
+      decide
+    simp only [hcnt, bne_self_eq_false, Bool.false_eq_true, if_false, hfind, hrfind]
+    have hsl : slice (A ++ '|' :: W ++ ['|', ']']) (some (A.length : Int)) (some ((A ++ '|' :: W).length : Int)) = '|' :: W := by
+      have h1 : A ++ '|' :: W ++ ['|', ']'] = A ++ ('|' :: W) ++ ['|', ']'] := by simp
+      have h2 : (A ++ '|' :: W).length = A.length + ('|' :: W).length := by simp
+      rw [h1, h2]
+      exact slice_mid A ('|' :: W) ['|', ']']
+    rw [hsl, stripChars_pipe W (fun c hc e => hWpipe (e ▸ hc))]
+    rfl
+  simp only [bne_self_eq_false, Bool.or_self, Bool.false_eq_true, if_false, symOfChar?_symChar sym hs, hid, hwt]
+  cases hm : (splitWs W).mapM floatOf with
+  | error e => simp
+  | ok l =>
+    match l with
+    | [] => simp [hst]
+    | [w] => simp [hst]
+    | a :: b :: r => simp [hst]
+
+/-- what the round trip needs to know about the printed forms of the entries of a list -/
+def NumsTextOK (l : List Rat) : Prop := ∀ w ∈ l, NumTextOK w
+
+/-- **C01 (descriptor with a transition list)**: `[sym id |w1 w2 … wn|]` (n ≥ 2, the weight being the sum of the list, as for every
+parsed descriptor) parses back to the same descriptor -/
+theorem desc_list_roundtrip (p : PDesc) (hs : p.d.sym ≠ .none) (hst : stereoRejected p.pre = false) (atom : Option Nat)
+    (l : List Rat) (htr : p.d.trans = some l) (hlen : 2 ≤ l.length) (hsum : p.d.weight = sumQ l) (hnum : NumsTextOK l) :
+    parseDesc (printDesc p true) p.num p.pre atom =
+      .ok { d := { sym := p.d.sym, id := p.d.id, order := orderOfPrefix p.pre, weight := p.d.weight, trans := some l, atom := atom.getD 0 },
+            pre := p.pre, num := p.num, noAtom := atom.isNone } := by
+  -- split the list into its front and its last entry
+  obtain ⟨front, last, rfl⟩ : ∃ front last, l = front ++ [last] := by
+    cases hl : l.reverse with
+    | nil => simp at hl; subst hl; simp at hlen
+    | cons a r => exact ⟨r.reverse, a, by rw [← List.reverse_reverse l, hl]; simp⟩
+  let W : Str := (front.map (fun t => numStr t ++ [' '])).flatten ++ numStr last
+  have hsym : symStr p.d.sym = [symChar p.d.sym] := by
+    cases h : p.d.sym <;> simp [symStr, Sym.toChar?, symChar, h] at hs ⊢
+  have htext : printDesc p true = ('[' :: symChar p.d.sym :: idStr p.d.id) ++ ('|' :: W) ++ ['|', ']'] := by
+    unfold printDesc
+    simp only [htr, Option.isSome_some, Bool.true_or, Bool.and_self, if_true, hsym]
+    have htake : (['|'] ++ ((front ++ [last]).map (fun t => numStr t ++ [' '])).flatten).take
+        ((['|'] ++ ((front ++ [last]).map (fun t => numStr t ++ [' '])).flatten).length - 1) = '|' :: W := by
+      have : ['|'] ++ ((front ++ [last]).map (fun t => numStr t ++ [' '])).flatten = ('|' :: W) ++ [' '] := by
+        simp [W]
+      rw [this]
+      simp
+    rw [htake]
+    have := strip_bracketed '[' ']' (symChar p.d.sym :: (idStr p.d.id ++ '|' :: (W ++ ['|']))) (by decide) (by decide)
+    simpa using this
+  have hW : ∀ w ∈ front.map numStr ++ [numStr last], w ≠ [] ∧ ∀ c ∈ w, isWs c = false := by
+    intro w hw
+    simp only [List.mem_append, List.mem_map, List.mem_singleton] at hw
+    rcases hw with ⟨t, ht, rfl⟩ | rfl
+    · have := hnum t (by simp [ht]); exact ⟨this.2.1, fun c hc => (this.2.2 c hc).2⟩
+    · have := hnum last (by simp); exact ⟨this.2.1, fun c hc => (this.2.2 c hc).2⟩
+  have hsplit : splitWs W = front.map numStr ++ [numStr last] := by
+    have : W = ((front.map numStr).map (· ++ [' '])).flatten ++ numStr last := by simp [W, List.map_map, Function.comp_def]
+    rw [this]
+    exact splitWs_words (front.map numStr) (numStr last) hW
+  have hWpipe : '|' ∉ W := by
+    intro hm
+    simp only [W, List.mem_append, List.mem_flatten, List.mem_map] at hm
+    rcases hm with ⟨x, ⟨t, ht, rfl⟩, hx⟩ | hx
+    · simp only [List.mem_append, List.mem_singleton] at hx
+      rcases hx with hx | hx
+      · exact ((hnum t (by simp [ht])).2.2 _ hx).1 rfl
+      · cases hx
+    · exact ((hnum last (by simp)).2.2 _ hx).1 rfl
+  rw [htext, parseDesc_barred p.d.sym hs p.d.id p.num p.pre atom hst W hWpipe, hsplit]
+  have hmap : (front.map numStr ++ [numStr last]).mapM floatOf = (.ok (front ++ [last]) : PR (List Rat)) := by
+    have : front.map numStr ++ [numStr last] = (front ++ [last]).map numStr := by simp
+    rw [this]
+    have hall : ∀ (xs : List Rat), (∀ w ∈ xs, NumTextOK w) → (xs.map numStr).mapM floatOf = (.ok xs : PR (List Rat)) := by
+      intro xs
+      induction xs with
+      | nil => intro _; rfl
+      | cons a r ih =>
+        intro h
+        have ha := (h a (by simp)).1
+        simp only [List.map_cons, List.mapM_cons, floatOf, ha]
+        rw [ih (fun w hw => h w (by simp [hw]))]
+        rfl
+    exact hall _ hnum
+  rw [hmap]
+  -- at least two entries: the list branch
+  match hf : front, hlen with
+  | [], hlen => simp at hlen
+  | a :: r, _ =>
+    match r with
+    | [] => simp [hsum]
+    | b :: r' => simp [hsum]
+
+
 end GBS.P
